@@ -214,6 +214,7 @@ uint64_t vf_count_get(const char *name)
 typedef struct vf_site { const char *func; int line; int op; uint32_t hash; uint64_t hits; } vf_site_t;
 typedef struct vf_site_tab {
 	struct vf_site_tab *next;
+	uint64_t total;                 /* library atomics executed by this thread (written by the owner only) */
 	vf_site_t e[VF_SITE_TAB];
 } vf_site_tab_t;
 static vf_site_tab_t *_Atomic g_site_tabs;
@@ -394,6 +395,7 @@ static void vf_atomic_hook(int phase, int op, const volatile void *addr,
 	if (phase == 0) {
 		s = site_lookup(func, line, op);
 		if (s) s->hits++;
+		if (tl.tab) tl.tab->total++;
 	}
 	const vf_profile_t *p = &g_prof;
 	if (p->kind != VF_P_OFF) {
@@ -722,13 +724,21 @@ static void dump_stuck(const char *kind, const char *ctx, vf_tstat_t *ts, int n)
 	}
 }
 
+/* library atomics executed so far by all threads (racy reads of per-thread counters: a lower bound is enough) */
+static uint64_t library_activity(void)
+{
+	uint64_t sum = 0;
+	for (vf_site_tab_t *t = atomic_load(&g_site_tabs); t; t = t->next) sum += *(volatile uint64_t *)&t->total;
+	return sum;
+}
+
 static void *watchdog_main(void *arg)
 {
 	(void)arg;
 	g_wd_tid = vf_gettid();
 	prctl(PR_SET_NAME, "vf-watchdog", 0, 0, 0);
 	uint64_t last_prog = 0, last_epoch = 0, cpu_at_last_prog = process_cpu_ns();
-	uint64_t idle_since_ns = 0;
+	uint64_t idle_since_ns = 0, last_act = 0;
 	int asleep_samples = 0;
 	static vf_tstat_t ts[512];
 	static struct { int tid; int r_seen; } rtab[512];
@@ -768,6 +778,15 @@ static void *watchdog_main(void *arg)
 			vf_finish();
 			_exit(3);
 		}
+		/* "every thread asleep" is a sample of one instant: a single thread working its way through a backlog with injected
+		 * sleeps (e.g. hundreds of queued retargets applied one queue hop at a time) is asleep at most instants too. A process
+		 * that is really stuck executes no library atomics beyond housekeeping (the 1 Hz pool monitor, idle workers timing
+		 * out); one that executed more than that since the last sample is not asleep. (A process that stays active without
+		 * ever completing an item is for the livelock rule above, or the job timeout.) */
+		uint64_t act = library_activity();
+		if (getenv("VF_WD_DEBUG")) fprintf(stderr, "vf-watchdog: no progress, library atomics since last sample: %llu, asleep samples %d\n", (unsigned long long)(act - last_act), asleep_samples);
+		if (act - last_act > 400) { last_act = act; asleep_samples = 0; nr = 0; continue; }
+		last_act = act;
 		int n = sample_threads(ts, 512);
 		if (n < 0) continue;
 		int all_asleep = 1;
